@@ -98,6 +98,7 @@ fn quantifier_reduce__any_all_n1() {
 
 #[kani::proof]
 #[kani::stub(std::mem::drop, crate::lhs_types::verif_kani::common::mem_drop__releases_nothing_observable)]
+#[kani::solver(minisat)]
 #[kani::unwind(3)]
 fn quantifier_reduce__any_all_n2() {
     reduce::<2>()
